@@ -196,6 +196,13 @@ class Gen:
         if ref.has_node(val):
             val = ["c", self.const()]
         node = dict(id=i, kind="lit", value=val, deps=self.pick_deps(i), scope=self.scope())
+        if self.p["registry"] and self.coin(self.p.get("p_store_other", 0.0)):
+            # Registry.add accepts any node: a literal with a value store (its value is made of plain constants, so
+            # that what a later process finds in the store can be compared by value)
+            node["value"] = self.rng.choice([["c", self.const()], ["L", [["c", self.const()], ["c", self.const()]]],
+                                             ["T", [["c", 1], ["L", []]]], ["D", [[["c", "k"], ["c", 2]]]]])
+            node["store"] = self.new_store()
+            node["add_depth"] = 0
         self.nodes.append(node)
         self.usable.append(i)
         return node
@@ -230,6 +237,9 @@ class Gen:
             # plan.gather of a node-free structure yields a literal
             node["kind"] = "lit"
             node["value"] = node.pop("args")[0]
+        elif self.p["registry"] and self.coin(self.p.get("p_store_other", 0.0)) and not _has_opaque(node["args"][0]):
+            node["store"] = self.new_store()      # a gather result with a value store
+            node["add_depth"] = 0
         self.nodes.append(node)
         self.usable.append(i)
         return node
@@ -261,6 +271,20 @@ class Gen:
         i = self.new_id()
         name = self.new_store()
         node = dict(id=i, kind="src", store=name, deps=sorted(deps), scope=self.scope(),
+                    depth=self.rng.randrange(0, self.p["depth_max"] + 1))
+        self.nodes.append(node)
+        self.usable.append(i)
+        return node
+
+    def add_src_dup(self):
+        """A second source node on the very same store object as an existing pure source (two helpers that each
+        call registry.source(plan, store))."""
+        cands = [n for n in self.nodes if n["kind"] == "src" and not n.get("deps")
+                 and not any(sd.get("feeds") == n["store"] for sd in self.stores.values())]
+        if not cands:
+            return None
+        i = self.new_id()
+        node = dict(id=i, kind="src", store=self.rng.choice(cands)["store"], deps=[], scope=self.scope(),
                     depth=self.rng.randrange(0, self.p["depth_max"] + 1))
         self.nodes.append(node)
         self.usable.append(i)
@@ -332,6 +356,8 @@ class Gen:
                 self.add_depsrc()
             elif reg and self.coin(p["p_fed"]) and self.add_fed_source() is not None:
                 pass
+            elif reg and self.coin(p.get("p_dup_src", 0.0)) and self.add_src_dup() is not None:
+                pass
             elif r < 0.5 * p["p_lit"] + (p["p_src"] if reg else 0):
                 self.add_lit()
             elif self.coin(p.get("p_lit_chain", 0.0)):
@@ -395,6 +421,17 @@ class Gen:
             return ["n", self.rng.choice(self.usable)]
         s = self.nested()
         return s
+
+
+def _has_opaque(spec):
+    k = spec[0]
+    if k in ("o", "X", "e", "M"):
+        return True
+    if k in ("L", "T", "S"):
+        return any(_has_opaque(x) for x in spec[1])
+    if k == "D":
+        return any(_has_opaque(a) or _has_opaque(b) for a, b in spec[1])
+    return False
 
 
 def _once_per_call(spec, used):
